@@ -72,6 +72,16 @@ Theorem C12_static_check_sound : forall prog sid base limit n s,
 Proof. exact static_check_sound. Qed.
 Print Assumptions C12_static_check_sound.
 
+(* the same check with a methods bit field, as Management.checkScriptAndMethods uses it (script_correct_m: the script passes
+   and every method offset is one of the instruction offsets found): an execution entered at a method offset
+   (LoadScript + Jump(offset), what a contract call does) never leaves the instruction boundaries either *)
+Theorem C12_static_check_sound_methods : forall prog sid base limit methods m n s,
+  script_correct_m prog methods = true -> In m methods ->
+  run n (start_at prog sid base limit m) = Running s ->
+  In (f_ip (s_fr s)) (boundaries prog) \/ f_ip (s_fr s) = zlen prog.
+Proof. exact static_check_sound_methods. Qed.
+Print Assumptions C12_static_check_sound_methods.
+
 (* binary fuel = unary fuel (the correspondence runs use runp) *)
 Theorem C12_runp_is_run : forall p s, runp p s = run (Pos.to_nat p) s.
 Proof. exact runp_run. Qed.
@@ -199,7 +209,8 @@ Qed.
    middle of the PUSHA operand does not *)
 Example C12_static_examples :
   script_correct [10; 7; 0; 0; 0; 54; 64; 17; 64] = true /\ boundaries [10; 7; 0; 0; 0; 54; 64; 17; 64] = [8; 7; 6; 5; 0] /\
-  script_correct [10; 2; 0; 0; 0; 54; 64; 17; 64] = false.
+  script_correct [10; 2; 0; 0; 0; 54; 64; 17; 64] = false /\
+  script_correct_m [10; 7; 0; 0; 0; 54; 64; 17; 64] [0; 7] = true /\ script_correct_m [10; 7; 0; 0; 0; 54; 64; 17; 64] [0; 3] = false.
 Proof. vm_compute. repeat split; reflexivity. Qed.
 
 (* non-vacuity: a looping script under a limit terminates by FAULT; a recursive one by the invocation limit *)
